@@ -104,6 +104,12 @@ CHECKS = {
         text='Reference emitters render a reference model as Element trees / dicts under symbolic surface choices (attribute presence and value, order, extra elements, n-ary rules, cardinality placement, tag case); the real readers run on them and must return the reference model. '
              'AFM text variants and the 1299 shipped FaMa files (against Betty statistics) are concrete runs reported apart. Bounded.',
         note='Trusted: CrossHair + patches, z3, the reference emitters in fmverif/props/c09.py. N<=4/5. FaMa/Glencoe names concrete. Corpus and AFM variants are not solver coverage.'),
+    'C04': dict(
+        category='model_checking', design_ref='6 C04',
+        technique='CrossHair symbolic execution (z3) of UVLReader.transform() on really parsed documents of an independent reference emitter whose cardinality and identifier tokens carry symbolic text, with symbolic surface choices; concrete corruption runs for the negative half',
+        text='An independent reference emitter renders a reference model under surface choices; the real lexer and parser parse it, payload tokens get symbolic text, the real reader must return the reference model (cardinalities incl. [n], [n..m], [n..*], keyword vs cardinality syntax; names quoted or plain). '
+             'All 2^8 surface combinations run natively on sampled shapes; syntax-error documents are concrete runs counted apart. Bounded.',
+        note='Trusted: CrossHair + patches, z3, the reference emitter in fmverif/props/c04.py, the lexer contract. N<=4/5. The negative half and the exhaustive surface sweep are concrete, not solver coverage.'),
 }
 
 NOT_YET = {}
